@@ -573,3 +573,34 @@ Proof.
     pose proof (fresh_no_panic 2 5 (map col_update cs1) bs (S k) (fresh_le_updated cs1 bs Hw1) ltac:(lia)) as H.
     destruct (produce 5 false (map col_update cs1) bs (S k)) as [[cs2 o2] log2]. exact H.
 Qed.
+
+(* ---- the overflow scan must look at every column in each round ----
+   NewRecord scans all dictionary columns of the record after each build and lets every one of them react (upgrade,
+   overflow, reset) before the record is rebuilt: [attempt_cols].  A scan that stops at the first column asking for a schema
+   update handles one column per round; six columns crossing an index width in the same batch then exhaust the retry budget
+   (the recorded seeded change C04-overflow-scan-stops-at-first-column).  With the scan as it is, the same batch is sent at
+   the second attempt. *)
+Fixpoint attempt_cols_first (cs : list col) (bs : list colbatch) : list col * list devent * list colview :=
+  match cs, bs with
+  | c :: ct, b :: bt =>
+      let '(c', e, v) := col_attempt c b in
+      if is_none e then let '(cs', es, vs) := attempt_cols_first ct bt in (c' :: cs', e :: es, v :: vs)
+      else (c' :: ct, [e], [v])                     (* stop: the remaining columns are not examined in this round *)
+  | _, _ => ([], [], [])
+  end.
+
+Fixpoint produce_first (fuel : nat) (cs : list col) (bs : list colbatch) (n : nat) : outcome :=
+  match fuel with
+  | O => PanicTooMany
+  | S f =>
+      let '(cs1, es, vs) := attempt_cols_first cs bs in
+      if forallb is_none es then Sent vs (S n) else produce_first f (map col_update cs1) bs (S n)
+  end.
+
+Example one_column_per_round_refuted :
+  let cfg := cfg_of_limit 65535 255 3 10 in
+  let cols := repeat (col_init cfg) 6 in
+  let batch := repeat (300, map N.of_nat (seq 0 300)) 6 in       (* 300 distinct values in each of six columns *)
+  snd (fst (produce budget false cols batch 0)) = Sent (repeat (Some (65535, 300)) 6) 2 /\
+  produce_first budget cols batch 0 = PanicTooMany.
+Proof. split; vm_compute; reflexivity. Qed.
